@@ -465,9 +465,61 @@ def r4_property_list_owners(repo=None):
     return r
 
 
+def r5_dataset_sized_per_file(repo=None):
+    r = Rule("C07.R5", "the data set of every new file is sized from that file's own slot count (must-pass)")
+    tu = cfront.lib(repo)
+    fn = tu.fn("digital_rf_create_hdf5_file")
+    g = _cfg.build_c(fn)
+    creates = [n for n in g.nodes if n.ast is not None and n.ast.calls(("H5Dcreate2",))]
+    if not creates:
+        raise AnalysisError("%s: H5Dcreate2 not found" % fn.name)
+    spaces = set()
+    for n in creates:
+        for c in n.ast.calls(("H5Dcreate2",)):
+            spaces.add(clib.alias_path(fn, c.args[3]))
+    if len(spaces) != 1 or None in spaces:
+        raise AnalysisError("%s: data space argument of H5Dcreate2 not recognised (%s)" % (fn.name, sorted(map(str, spaces))))
+    space = list(spaces)[0]
+    mk = []
+    dims_var = None
+    for n in g.nodes:
+        if n.kind == "stmt" and n.ast is not None and n.ast.kind == "BinaryOperator" and n.ast.opcode == "=" \
+                and n.ast.children[0].path() == space:
+            cs = n.ast.children[1].calls(("H5Screate_simple",))
+            rhs = n.ast.children[1].strip(casts=True)
+            if rhs.kind == "CallExpr" and rhs.callee == "H5Screate_simple":
+                mk.append(n)
+                dims_var = rhs.args[1].path()
+    if not mk or dims_var is None:
+        raise AnalysisError("%s: `%s = H5Screate_simple(...)` not found" % (fn.name, space))
+    skip = [c for c in creates if c.id in g.reach([g.entry.id], avoid=[n.id for n in mk])]
+    if skip:
+        r.violation(LIB, fn.name, "H5Dcreate2 reachable without `%s = H5Screate_simple(...)` in the same call" % space.split("->")[-1],
+                    "a new file's data set can be created with a data space left over from an earlier file: when files hold different "
+                    "numbers of slots (non-integer samples per file) the file exposes more or fewer slots than its time window",
+                    line=skip[0].line)
+    else:
+        r.ok("%s:%s %s" % (LIB, mk[0].line, fn.name), "every path to H5Dcreate2 creates the data space anew")
+    # dims[0] is this call's num_rows on every path to the creation of the data space
+    sets = [n for n in g.nodes if n.kind == "stmt" and n.ast is not None and n.ast.kind == "BinaryOperator" and n.ast.opcode == "="
+            and n.ast.children[0].path() == dims_var + "[0]"]
+    if not sets:
+        decl = [d for d in fn.find("VarDecl") if d.name == dims_var]
+        raise AnalysisError("%s: no assignment to %s[0]" % (fn.name, dims_var))
+    skip2 = [m_ for m_ in mk if m_.id in g.reach([g.entry.id], avoid=[n.id for n in sets])]
+    if skip2:
+        r.violation(LIB, fn.name, "%s[0] not assigned on every path to H5Screate_simple" % dims_var, "the size of the data set does not "
+                    "follow this file's slot count", line=skip2[0].line)
+    else:
+        r.ok("%s:%s %s" % (LIB, sets[0].line, fn.name), "%s[0] = %s is assigned on every path before the data space is created" % (
+            dims_var, re.sub(r"\s", "", sets[0].ast.children[1].nsrc)))
+    r.guard(2)
+    return r
+
+
 def rules(repo=None):
     return [lambda: r1_fill_table(repo), lambda: r2_exhaustive(repo), lambda: r3_representation_switch(repo),
-            lambda: r4_property_list_owners(repo)]
+            lambda: r4_property_list_owners(repo), lambda: r5_dataset_sized_per_file(repo)]
 
 
 EXPLANATION = (
